@@ -4,6 +4,7 @@
  * case = <op> <field>...            (fields are hex, "-" = empty)
  *   fd <list> <name>        finddomain(list placed so that list[size] is on a PROT_NONE page, size, name)   -> R <0|1>
  *   ff <list> <name>        finddomainfd(fd of a real temp file with that content, name, 1)  (real flock+mmap) -> R <0|1> | E <class>
+ *   ad <name> <expr>        matchdomain(name, strlen(name), expr)  (both exact-size heap C strings)          -> R <0|1>
  *   a4 <ip16> <net4> <m>    ip4_matchnet(ip, net, m)                                                   -> R <0|1>
  *   a6 <ip16> <net16> <m>   ip6_matchnet(ip, net, m)                                                   -> R <0|1>
  *   b4 <ip16> <file>        check_ip4(file placed at a guard page, size) with xmitstat.sremoteip = ip     -> R <-1|0|1>
@@ -77,7 +78,7 @@ static void run_case(int nf, struct field *f)
 	if (op == 0xfd && nf == 3) {
 		char *g = guard_copy(f[1].p, f[1].len);
 		/* exact-size heap copy of the name so ASan sees over-reads of it */
-		size_t dl = strlen((char *)f[2].p);
+		size_t dl = strnlen((char *)f[2].p, f[2].len);
 		char *d = malloc(dl + 1); memcpy(d, f[2].p, dl); d[dl] = 0;
 		int r = finddomain(g, (off_t)f[1].len, d);
 		out_str("R "); out_int(r);
@@ -85,9 +86,18 @@ static void run_case(int nf, struct field *f)
 	} else if (op == 0xff && nf == 3) {
 		int fd = tmpfd(f[1].p, f[1].len);
 		errno = 0;
-		int r = finddomainfd(fd, (char *)f[2].p, 1);
+		size_t dl = strnlen((char *)f[2].p, f[2].len);
+		char *d = malloc(dl + 1); memcpy(d, f[2].p, dl); d[dl] = 0;
+		int r = finddomainfd(fd, d, 1);
+		free(d);
 		if (r < 0) { out_str("E "); out_str(eclass(errno)); }
 		else { out_str("R "); out_int(r); }
+	} else if (op == 0xad && nf == 3) {
+		size_t dl = strnlen((char *)f[1].p, f[1].len), el = strnlen((char *)f[2].p, f[2].len);
+		char *d = malloc(dl + 1); memcpy(d, f[1].p, dl); d[dl] = 0;
+		char *e = malloc(el + 1); memcpy(e, f[2].p, el); e[el] = 0;
+		out_str("R "); out_int(matchdomain(d, dl, e));
+		free(d); free(e);
 	} else if (op == 0xa4 && nf == 4 && f[1].len == 16 && f[2].len == 4 && f[3].len == 1) {
 		struct in6_addr ip; struct in_addr net;
 		memcpy(&ip, f[1].p, 16); memcpy(&net, f[2].p, 4);
